@@ -168,6 +168,127 @@ pub fn joint(prog: &[Stmt], pr: &Printed) -> Option<Joint> {
     }
 }
 
+/// Split the printed program at top-level statement boundaries into a main text and include
+/// files (possibly nested), as `(main, files, n_includes, n_before_first_include)`.
+/// The cut points are starts of top-level statements, so every file holds whole statements
+/// with their trivia; a version line stays first in the main text.
+pub fn split_into_includes(src: &mut Src, prog: &[Stmt], pr: &Printed) -> Option<(String, Vec<(String, String)>, usize, usize)> {
+    let tops: Vec<usize> = pr.spans.iter().filter(|s| s.is_stmt && s.depth == 0).map(|s| pr.offsets[s.start].0).collect();
+    if tops.len() != prog.len() || prog.len() < 2 {
+        return None;
+    }
+    let lo = if matches!(prog[0], Stmt::Version(_)) { 1 } else { 0 };
+    let n = prog.len();
+    if n - lo < 1 {
+        return None;
+    }
+    let at = |k: usize| if k >= n { pr.text.len() } else { tops[k] };
+    // cut [i, j) out of the main text; inside it optionally cut [i2, j2) into a nested file
+    let i = lo + src.below(n - lo);
+    let j = i + 1 + src.below(n - i);
+    let nested = j - i >= 2 && src.chance(1, 3);
+    let mut files = vec![];
+    let inc_line = |name: &str| format!("include \"{name}\";\n");
+    let body0 = if nested {
+        let i2 = i + src.below(j - i);
+        let j2 = i2 + 1 + src.below(j - i2);
+        files.push(("inner.inc".to_string(), pr.text[at(i2)..at(j2)].to_string()));
+        format!("{}{}{}", &pr.text[at(i)..at(i2)], inc_line("inner.inc"), &pr.text[at(j2)..at(j)])
+    } else {
+        pr.text[at(i)..at(j)].to_string()
+    };
+    files.push(("part.inc".to_string(), body0));
+    let mut main = format!("{}{}", &pr.text[..at(i)], inc_line("part.inc"));
+    let mut n_inc = 1 + nested as usize;
+    // optionally a second include further down
+    if j < n && src.chance(1, 3) {
+        let i3 = j + src.below(n - j);
+        let j3 = i3 + 1 + src.below(n - i3);
+        files.push(("second.qasm".to_string(), pr.text[at(i3)..at(j3)].to_string()));
+        main.push_str(&pr.text[at(j)..at(i3)]);
+        main.push_str(&inc_line("second.qasm"));
+        main.push_str(&pr.text[at(j3)..]);
+        n_inc += 1;
+    } else {
+        main.push_str(&pr.text[at(j)..]);
+    }
+    Some((main, files, n_inc, i))
+}
+
+/// The structural half of the joint walk for a program whose top-level statements are partly
+/// moved into include files: the graph must be the one of the unsplit program.
+pub fn joint_split(prog: &[Stmt], pr: &Printed, main: &str, files: &[(String, String)]) -> Option<Vec<Failure>> {
+    if !clean_parse(&pr.text) {
+        return None;
+    }
+    let res = crate::fsprops::analyze_with_files(main, files).ok()?;
+    if res.any_syntax_errors() {
+        return None;
+    }
+    let shown = format!("{main}\n{}", files.iter().map(|(n, b)| format!("// ---- file {n}\n{b}")).collect::<Vec<_>>().join("\n"));
+    let r = guarded(|| {
+        let mut w = Walk::new(res.symbol_table(), &shown);
+        w.program(prog, res.program());
+        std::mem::take(&mut w.fails)
+    });
+    match r {
+        Ok(f) => Some(f.into_iter().map(|mut f| {
+            f.key = format!("{}@include-split", f.key);
+            f
+        }).collect()),
+        Err(p) => Some(vec![Failure::new(if is_harness_panic(&p) { format!("HARNESS:joint-split:{}:{}", p.file, p.line) } else { format!("C06:{}", panic_key(&p)) }, json!({"input": {"source": shown}, "actual": p.msg}))]),
+    }
+}
+
+fn run_joint_split(ctx: &RunCtx, prefix: &'static str, n: u64) {
+    let prev = ctx.shrink_iters.swap(2_000, std::sync::atomic::Ordering::Relaxed);
+    run_joint_split_inner(ctx, prefix, n);
+    crate::fsprops::cleanup_work();
+    ctx.shrink_iters.store(prev, std::sync::atomic::Ordering::Relaxed);
+}
+
+fn run_joint_split_inner(ctx: &RunCtx, prefix: &'static str, n: u64) {
+    ctx.random("include-split", n, 1200, |src| {
+        let style = [Style::Minimal, Style::Spaced, Style::Wild][src.below(3)];
+        let prog = gen_program(src, &Profile::plain());
+        let pr = print_program(src, &prog, style);
+        let mut rep = CaseReport::default();
+        let Some((main, files, n_inc, before)) = split_into_includes(src, &prog, &pr) else {
+            rep.discarded = true;
+            rep.class("too-short-to-split");
+            return rep;
+        };
+        match joint_split(&prog, &pr, &main, &files) {
+            None => {
+                rep.discarded = true;
+                rep.class("syntax-diagnostics");
+            }
+            Some(fails) => {
+                let pre = format!("{prefix}:");
+                rep.failures = fails.into_iter().filter(|f| f.key.starts_with(&pre) || f.key.starts_with("HARNESS:")).collect();
+                rep.class(format!("includes:{n_inc}"));
+                rep.class(if before > 0 { "statements-before-include" } else { "include-first" });
+                if before > 0 {
+                    rep.nontrivial = Some(fnv64(main.as_bytes()));
+                }
+            }
+        }
+        rep.sample = Some(main);
+        rep
+    });
+}
+
+pub fn replay_joint_split(prefix: &str, v: &serde_json::Value) -> Result<Vec<Failure>, String> {
+    let choices: Vec<u32> = v["choices"].as_array().ok_or("no choices")?.iter().filter_map(|x| x.as_u64().map(|n| n as u32)).collect();
+    let mut src = Src::new(&choices);
+    let style = [Style::Minimal, Style::Spaced, Style::Wild][src.below(3)];
+    let prog = gen_program(&mut src, &Profile::plain());
+    let pr = print_program(&mut src, &prog, style);
+    let Some((main, files, _, _)) = split_into_includes(&mut src, &prog, &pr) else { return Ok(vec![]) };
+    let pre = format!("{prefix}:");
+    Ok(joint_split(&prog, &pr, &main, &files).map(|f| f.into_iter().filter(|f| f.key.starts_with(&pre)).collect()).unwrap_or_default())
+}
+
 fn run_joint(ctx: &RunCtx, prefix: &'static str, check_name: &str, n: u64, profile: Profile, nontrivial: impl Fn(&Joint, &[Stmt]) -> bool + Sync) {
     ctx.random(check_name, n, 1200, |src| {
         let style = [Style::Minimal, Style::Spaced, Style::Wild][src.below(3)];
@@ -204,6 +325,9 @@ pub fn replay_joint(prefix: &str, v: &serde_json::Value) -> Result<Vec<Failure>,
     // generator-based replay: re-decode the stored choices with the stored profile
     let choices: Vec<u32> = v["choices"].as_array().ok_or("no choices")?.iter().filter_map(|x| x.as_u64().map(|n| n as u32)).collect();
     let check = v["check"].as_str().unwrap_or("");
+    if check == "include-split" {
+        return replay_joint_split(prefix, v);
+    }
     let profile = match check {
         "scope-stress" => Profile::scope_stress(),
         "usage" => Profile::usage(),
@@ -233,21 +357,23 @@ fn depth_of(prog: &[Stmt]) -> usize {
 }
 
 pub fn run_c06(ctx: &RunCtx) {
-    ctx.set_rule("generated programs of the supported subset without faults (all statement kinds nested to the profile depth, block and single-statement bodies, every supported operator, annotations, pragmas, stdgates include), leaves made identifiable; joint walk of the model term and the graph through public accessors: statement kinds and order, block contents, branches, loop bodies, cases/default, gate/def bodies and parameter lists, operand/argument/index/modifier order, operator identity, literal class and value, annotation and pragma text. implicit casts are skipped. non-trivial = >=2 nesting levels or a control-flow statement; distinct by model term");
+    ctx.set_rule("generated programs of the supported subset without faults (all statement kinds nested to the profile depth, block and single-statement bodies, every supported operator, annotations, pragmas, stdgates include), leaves made identifiable; joint walk of the model term and the graph through public accessors: statement kinds and order, block contents, branches, loop bodies, cases/default, gate/def bodies and parameter lists, operand/argument/index/modifier order, operator identity, literal class and value, annotation and pragma text; a third of the budget re-runs the walk with runs of top-level statements moved into one to three real include files (one level of nesting), where the graph must be that of the unsplit program (includes expanded in place). implicit casts are skipped. non-trivial = >=2 nesting levels or a control-flow statement; distinct by model term");
     ctx.assume("the expected graph vocabulary is read off asg.rs (node types), not off the translation code; implicit Cast wrappers are C08's subject");
     let n = ctx.pick(60_000u64, 5_000_000u64);
     run_joint(ctx, "C06", "plain", n, Profile::plain(), |_, p| depth_of(p) >= 1);
     run_joint(ctx, "C06", "faulty", n / 2, Profile::faulty(), |_, p| depth_of(p) >= 1);
+    run_joint_split(ctx, "C06", n / 3);
     deterministic_forms(ctx, "C06");
 }
 
 pub fn run_c07(ctx: &RunCtx) {
-    ctx.set_rule("generated programs with the scope-stress profile: names from small pools incl. pi, U, h, cx, tau, rz; declarations and uses at every scope kind to depth 5; use before declaration, use after scope exit, duplicates in one scope, shadowing, parameter / loop-variable collisions, double stdgates include. oracle: reference stack-of-maps resolution during the joint walk: bijection between reference declarations and SymbolIds, symbol names as written, unresolved = MissingBinding + Undefined type, duplicates = AlreadyBound; per-statement counts of UndefVarError / RedeclarationError; scope depth 1 at the end. non-trivial = >=1 shadowing / unresolved / duplicate event and >=3 scopes; distinct by model term");
+    ctx.set_rule("generated programs with the scope-stress profile: names from small pools incl. pi, U, h, cx, tau, rz; declarations and uses at every scope kind to depth 5; use before declaration, use after scope exit, duplicates in one scope, shadowing, parameter / loop-variable collisions, double stdgates include; a share of plain programs re-walked with top-level statement runs moved into real include files (bindings made in an included file are global bindings). oracle: reference stack-of-maps resolution during the joint walk: bijection between reference declarations and SymbolIds, symbol names as written, unresolved = MissingBinding + Undefined type, duplicates = AlreadyBound; per-statement counts of UndefVarError / RedeclarationError; scope depth 1 at the end. non-trivial = >=1 shadowing / unresolved / duplicate event and >=3 scopes; distinct by model term");
     ctx.assume("self-reference inside an initializer or inside the own gate/def body is not generated (the statement does not settle it)");
     let n = ctx.pick(60_000u64, 5_000_000u64);
     run_joint(ctx, "C07", "scope-stress", n, Profile::scope_stress(), |j, _| (j.n_shadow + j.n_dup + j.n_missing) >= 1 && j.n_scopes >= 3);
     run_joint(ctx, "C07", "faulty", n / 2, Profile::faulty(), |j, _| (j.n_shadow + j.n_dup + j.n_missing) >= 1 && j.n_scopes >= 3);
     run_joint(ctx, "C07", "plain", n / 4, Profile::plain(), |j, _| j.n_scopes >= 3);
+    run_joint_split(ctx, "C07", n / 6);
     deterministic_forms(ctx, "C07");
 }
 
